@@ -97,6 +97,9 @@ type BatchProcessor struct {
 
 	// stopped holds the stopped state of the BatchProcessor.
 	stopped atomic.Bool
+	// shutdownDone is closed when the Shutdown call that stopped the
+	// BatchProcessor has returned.
+	shutdownDone chan struct{}
 
 	noCmp [0]func() //nolint: unused  // This is indeed used.
 }
@@ -126,6 +129,8 @@ func NewBatchProcessor(exporter Exporter, opts ...BatchProcessorOption) *BatchPr
 		batchSize:   cfg.expMaxBatchSize.Value,
 		pollTrigger: make(chan struct{}, 1),
 		pollKill:    make(chan struct{}),
+
+		shutdownDone: make(chan struct{}),
 	}
 	b.pollDone = b.poll(cfg.expInterval.Value)
 	return b
@@ -205,9 +210,21 @@ func (b *BatchProcessor) OnEmit(_ context.Context, r *Record) error {
 
 // Shutdown flushes queued log records and shuts down the decorated exporter.
 func (b *BatchProcessor) Shutdown(ctx context.Context) error {
-	if b.stopped.Swap(true) || b.q == nil {
+	if b.q == nil {
 		return nil
 	}
+	if b.stopped.Swap(true) {
+		// Another call is shutting the processor down, or has done so. Do not
+		// report completion before that call has returned: it may still be
+		// exporting what was queued.
+		select {
+		case <-b.shutdownDone:
+			return nil
+		case <-ctx.Done():
+			return ctx.Err()
+		}
+	}
+	defer close(b.shutdownDone)
 
 	// Stop the poll goroutine.
 	close(b.pollKill)
